@@ -18,7 +18,11 @@ import (
 	"net"
 	"net/netip"
 	"os"
+	"runtime"
 	"strings"
+	"sync"
+	"sync/atomic"
+	"time"
 
 	"github.com/gopacket/gopacket"
 	"github.com/gopacket/gopacket/layers"
@@ -80,14 +84,16 @@ type policy struct {
 }
 
 type rec struct {
-	Ev      string   `json:"ev"`
-	Kind    string   `json:"kind,omitempty"`
-	W       int      `json:"W,omitempty"`
-	Pkts    []packet `json:"pkts"`
-	Pairs   [][]ia   `json:"pairs"`
-	Queries []prefix `json:"queries"`
-	Table   []entry  `json:"table,omitempty"`
-	Pol     *policy  `json:"pol,omitempty"`
+	Tables  [][]entry `json:"tables,omitempty"`
+	Ops     [][]any   `json:"ops,omitempty"`
+	Ev      string    `json:"ev"`
+	Kind    string    `json:"kind,omitempty"`
+	W       int       `json:"W,omitempty"`
+	Pkts    []packet  `json:"pkts"`
+	Pairs   [][]ia    `json:"pairs"`
+	Queries []prefix  `json:"queries"`
+	Table   []entry   `json:"table,omitempty"`
+	Pol     *policy   `json:"pol,omitempty"`
 }
 
 var w int // address bits of the current reset
@@ -351,6 +357,146 @@ func query(pol *routing.Policy, pairs [][]ia, queries []prefix) (m [][]int, adv 
 	return m, adv, outside, nil
 }
 
+// ---------------------------------------------------------------------------- concurrent updates
+
+type nopPublisher struct{}
+
+func (nopPublisher) AddRoute(control.Route)    {}
+func (nopPublisher) DeleteRoute(control.Route) {}
+func (nopPublisher) Close()                    {}
+
+type idSession struct{ id int }
+
+func (s *idSession) Write(gopacket.Packet) {}
+func (s *idSession) String() string        { return fmt.Sprintf("s%d", s.id) }
+
+// runConc runs one writer (the scenario's update sequence) against concurrent readers on a real
+// AtomicRoutingTable -> publishing routing table -> data-plane routing table stack.  Every operation is
+// bracketed by two readings of one global atomic clock.
+func runConc(wr *vt.Writer, rc *rec, r *rand.Rand) {
+	wr.Emit(vt.M{"ev": "reset", "W": 6, "tables": rc.Tables, "pkts": rc.Pkts})
+	var clk atomic.Int64
+	art := &dataplane.AtomicRoutingTable{}
+	mkTable := func(t int) control.RoutingTable {
+		var chains []*control.RoutingChain
+		for i, e := range rc.Tables[t-1] {
+			ch := &control.RoutingChain{Prefixes: []*net.IPNet{e.P.ipnet()}}
+			for j, c := range e.Cls {
+				ch.TrafficMatchers = append(ch.TrafficMatchers,
+					control.TrafficMatcher{ID: 10*(i+1) + j + 1, Matcher: matcher(c.M)})
+			}
+			chains = append(chains, ch)
+		}
+		return control.NewPublishingRoutingTable(chains, dataplane.NewRoutingTable(chains), nopPublisher{},
+			net.IPv4(10, 9, 9, 9), net.IPv4(10, 9, 9, 1), net.ParseIP("2001:db8:9::1"))
+	}
+	type pktv struct {
+		v4 *layers.IPv4
+		v6 *layers.IPv6
+	}
+	var pk []pktv
+	for _, p := range rc.Pkts {
+		gp := gopacket.NewPacket(serialize(p), map[int]gopacket.LayerType{4: layers.LayerTypeIPv4, 6: layers.LayerTypeIPv6}[p.Fam],
+			gopacket.DecodeOptions{NoCopy: true})
+		var v pktv
+		if l, ok := gp.NetworkLayer().(*layers.IPv4); ok {
+			v.v4 = l
+		} else if l, ok := gp.NetworkLayer().(*layers.IPv6); ok {
+			v.v6 = l
+		}
+		pk = append(pk, v)
+	}
+	type rdRec struct{ pkt, inv, res, out, panic int }
+	nReaders := 3
+	reads := make([][]rdRec, nReaders)
+	var done atomic.Bool
+	var wg sync.WaitGroup
+	seeds := make([]int64, nReaders)
+	for k := range seeds {
+		seeds[k] = r.Int63()
+	}
+	for k := 0; k < nReaders; k++ {
+		wg.Add(1)
+		go func(k int) {
+			defer wg.Done()
+			rr := rand.New(rand.NewSource(seeds[k]))
+			for n := 0; n < 40 || !done.Load(); n++ {
+				if n >= 400 {
+					break
+				}
+				pi := rr.Intn(len(pk))
+				rec := rdRec{pkt: pi + 1}
+				func() {
+					defer func() {
+						if e := recover(); e != nil {
+							rec.panic = 1
+						}
+					}()
+					rec.inv = int(clk.Add(1))
+					var s control.PktWriter
+					if pk[pi].v4 != nil {
+						s = art.RouteIPv4(*pk[pi].v4)
+					} else {
+						s = art.RouteIPv6(*pk[pi].v6)
+					}
+					rec.res = int(clk.Add(1))
+					if is, ok := s.(*idSession); ok && is != nil {
+						rec.out = is.id
+					}
+				}()
+				reads[k] = append(reads[k], rec)
+				if rr.Intn(3) == 0 {
+					runtime.Gosched()
+				}
+			}
+		}(k)
+	}
+	cur := 0
+	var curTable control.RoutingTable
+	for _, op := range rc.Ops {
+		name := op[0].(string)
+		t, i, j := int(op[1].(float64)), int(op[2].(float64)), int(op[3].(float64))
+		ev := vt.M{"ev": "w", "op": name, "t": t, "i": i, "j": j, "err": 0}
+		for k := r.Intn(4); k > 0; k-- {
+			runtime.Gosched()
+		}
+		switch name {
+		case "swap":
+			nt := mkTable(t)
+			ev["inv"] = int(clk.Add(1))
+			old := art.SetRoutingTable(nt)
+			ev["res"] = int(clk.Add(1))
+			if old != nil && curTable != nil {
+				_ = old.Close()
+			}
+			cur, curTable = t, nt
+		case "set":
+			ev["inv"] = int(clk.Add(1))
+			err := curTable.SetSession(10*i+j, &idSession{id: 100*cur + 10*i + j})
+			ev["res"] = int(clk.Add(1))
+			if err != nil {
+				ev["err"] = 1
+			}
+		case "clear":
+			ev["inv"] = int(clk.Add(1))
+			err := curTable.ClearSession(10*i + j)
+			ev["res"] = int(clk.Add(1))
+			if err != nil {
+				ev["err"] = 1
+			}
+		}
+		wr.Emit(ev)
+		time.Sleep(time.Duration(r.Intn(300)) * time.Microsecond)
+	}
+	done.Store(true)
+	wg.Wait()
+	for k := range reads {
+		for _, rd := range reads[k] {
+			wr.Emit(vt.M{"ev": "r", "reader": k, "pkt": rd.pkt, "inv": rd.inv, "res": rd.res, "out": rd.out, "panic": rd.panic})
+		}
+	}
+}
+
 func main() {
 	in := flag.String("in", "", "scenario ndjson")
 	outp := flag.String("out", "", "trace ndjson")
@@ -450,6 +596,9 @@ func main() {
 				out["m1"], out["adv1"], out["x1"] = m1, adv1, x1
 			}()
 			wr.Emit(out)
+		case "conc":
+			w = 6
+			runConc(wr, &rc, r)
 		default:
 			vt.Fatal("unknown scenario record %q", rc.Ev)
 		}
